@@ -269,6 +269,30 @@ class Repo:
     def has_func(self, rel, qual):
         return (rel, qual) in self.funcs
 
+    def func_of_name(self, rel, name, depth=0):
+        """FuncInfo of the module-level function `name` denotes in module `rel`, following `from x import name [as alias]` re-exports
+        through other modules of the package; None when it is not a function of the package."""
+        if depth > 5 or rel is None:
+            return None
+        fi = self.funcs.get((rel, name))
+        if fi is not None:
+            return fi
+        imp = self.imported_names(rel, module_level_only=True).get(name)
+        if imp and imp[0] == "name":
+            return self.func_of_name(imp[1], imp[2], depth + 1)
+        return None
+
+    def func_of_callee(self, rel, func):
+        """FuncInfo of the package function a call's `func` expression names from inside module `rel` (`helper`, `_mod.helper`,
+        `_pkg.helper` re-exported by the sub-package's `__init__`), or None."""
+        if isinstance(func, ast.Name):
+            return self.func_of_name(rel, func.id)
+        if isinstance(func, ast.Attribute) and isinstance(func.value, ast.Name):
+            imp = self.imported_names(rel).get(func.value.id)
+            if imp and imp[0] == "module":
+                return self.func_of_name(imp[1], func.attr)
+        return None
+
     def cls(self, rel, name):
         c = self.classes.get((rel, name))
         if c is None:
